@@ -43,6 +43,8 @@ TECHNIQUE = ("Lean 4 proof over an effect-list model of FileUploadHandler (abstr
 
 UP = "uploads"
 TOKEN = "s3cret"
+TAG = "nvtmp"          # what secrets.token_hex returns inside the handler during a case
+TMPNAME = "." + TAG + ".upload"
 SAFE_NAMES = ["a", "b", "sub", "x y", "ü", "f.txt", "é%41", "d1", ".hid", "-n"]
 
 
@@ -64,7 +66,7 @@ def run_direct(base: str, case: dict) -> str:
         return "badline"
     req.content = bytes.fromhex(case["content"])
     h = make_handler(base, case["cfg"])
-    T.set_fault(case.get("fault"))
+    T.set_fault(case.get("fault"), case.get("tag", TAG))
     try:
         resp = asyncio.run(h.handle_upload(req))
         return str(resp.status)
@@ -97,7 +99,7 @@ def run_proto(base: str, case: dict) -> str:
             await asyncio.sleep(0)
         proto.connection_lost(None)
 
-    T.set_fault(case.get("fault"))
+    T.set_fault(case.get("fault"), case.get("tag", TAG))
     try:
         asyncio.run(go())
     finally:
@@ -185,9 +187,9 @@ class UploadFamily(Family):
                 return "E"
             return "|".join(cps(v) for v in x)
 
-        cfgs = ";".join([str(cfg["max"]), lst(cfg["types"]), lst(sorted(set(cfg["tokens"])) if cfg["tokens"] else []), str(int(cfg["delete"])), str(os.getpid())])
+        cfgs = ";".join([str(cfg["max"]), lst(cfg["types"]), lst(sorted(set(cfg["tokens"])) if cfg["tokens"] else []), str(int(cfg["delete"])), case.get("tag", TAG)])
         f = case.get("fault")
-        fs = "-" if not f else {"mkdir": f"mkdir:{f[1] if len(f) > 1 else 0}", "write": f"write:{f[1] if len(f) > 1 else 0}", "writeperm": "write:0",
+        fs = "-" if not f else {"mkdir": f"mkdir:{f[1] if len(f) > 1 else 0}", "write": f"write:{f[1] if len(f) > 1 else 0}", "open": "open",
                                 "rename": "rename", "unlink": "unlink"}[f[0]]
         return "\t".join(["upload", self.mode, ";".join(ents), cfgs, cps(case["line"]), case["content"] or "-", fs])
 
@@ -210,6 +212,8 @@ class UploadFamily(Family):
                 elif f[0] == "ul":
                     if f[2] == "1":
                         st.pop(core.uncps(f[1]), None)
+                elif f[0] == "rd":
+                    st.pop(core.uncps(f[1]), None)
         if status == "raised" and self.mode == "proto":
             status = "40"
         return {"status": status, "diff": T.diff(before, st)}
@@ -227,8 +231,11 @@ class UploadFamily(Family):
         outside = [d for d in diff if not (d[1] == UP or d[1].startswith(UP + "/"))]
         if outside:
             return ("outside-upload-dir", f"{desc} changed something outside the upload directory: {outside[:3]!r}")
-        tmpmark = f".{os.getpid()}.upload"
-        pre_tmp = [d for d in diff if d[1].endswith(tmpmark) and d[1] in before]
+        def tmpname(p):
+            n = p.rsplit("/", 1)[-1]
+            return n.startswith(".") and n.endswith(".upload")
+
+        pre_tmp = [d for d in diff if d[1] in before and tmpname(d[1]) and d[1] != obs.get("denotes")]
         if pre_tmp:
             return ("temp-name-collision", f"{desc} altered an existing entry that happens to carry the handler's temporary name: {pre_tmp[:2]!r}")
         if status != "20":
@@ -339,6 +346,11 @@ def gen_tree(rng: random.Random):
             else:
                 tgt = "."
             ents.append(["l", p, tgt])
+    if rng.random() < 0.12:                                   # something already carries the temporary name
+        d = rng.choice(dirs)
+        k = rng.random()
+        ents.append(["f", d + "/" + TMPNAME, hexs(b"PRECIOUS")] if k < 0.4 else ["d", d + "/" + TMPNAME] if k < 0.55 else
+                    ["l", d + "/" + TMPNAME, rng.choice(["/out/secret", "/out/via-temp-link", "nonexistent", "/uploads-evil/e"])])
     return ents
 
 
@@ -377,13 +389,13 @@ def gen_path(rng: random.Random, ents) -> tuple[str, str]:
 
 def gen_request(rng: random.Random, ents, proto: bool):
     cfg = {"max": rng.choice([8, 8, 16, 100, 2000]),
-           "types": rng.choice([None, None, [], ["text/plain"], ["text/gemini", "text/plain"], ["image/png"]]),
-           "tokens": rng.choice([None, None, [], [TOKEN], [TOKEN], ["", TOKEN], ["t1", "t2"]]),
-           "delete": rng.random() < 0.5}
+           "types": rng.choice([None, None, None, None, [], ["text/plain"], ["text/gemini", "text/plain"], ["image/png"]]),
+           "tokens": rng.choice([None, None, None, None, [], [TOKEN], [TOKEN], ["", TOKEN], ["t1", "t2"]]),
+           "delete": rng.random() < 0.65}
     path, cls = gen_path(rng, ents)
     path = T.subst(path)
     mx = cfg["max"]
-    size = rng.choice([1, 3, mx - 1, mx, mx, mx + 1, mx + 1, 0, 0, 5, mx // 2])
+    size = rng.choice([1, 3, mx - 1, mx, mx, mx + 1, 0, 0, 0, 5, mx // 2, 7])
     size = max(size, 0)
     params = []
     sr = rng.random()
@@ -414,7 +426,7 @@ def gen_request(rng: random.Random, ents, proto: bool):
         params.append(rng.choice(["mime= text/plain ", "mime=", "MIME=text/plain", "mime=text/gemini"]))
     tr = rng.random()
     want_tok = bool(cfg["tokens"])
-    if tr < (0.55 if want_tok else 0.25):
+    if tr < (0.6 if want_tok else 0.2):
         params.append("token=" + rng.choice(cfg["tokens"] or [TOKEN]))
         cls += "+tok"
     elif tr < 0.65:
@@ -451,7 +463,7 @@ def gen_fault(rng: random.Random, size: int):
     if r < 0.8:
         return ["write", rng.choice([0, 1, max(size // 2, 0), max(size - 1, 0)])]
     if r < 0.85:
-        return ["writeperm"]
+        return ["open"]
     if r < 0.93:
         return ["rename"]
     return ["mkdir", rng.choice([0, 0, 1, 2])]
@@ -479,8 +491,15 @@ def fixed_cases(mode: str):
         yield {"tree": FIXED_TREE, "cfg": OPEN, "line": line, "content": content, "fault": fault, "cls": cls + "+fixed"}
     yield {"tree": FIXED_TREE, "cfg": {"max": 100, "types": None, "tokens": [TOKEN], "delete": False}, "line": "titan://h/a;size=7;token=", "content": c, "fault": None, "cls": "existing+emptytok+fixed"}
     yield {"tree": FIXED_TREE, "cfg": {"max": 100, "types": None, "tokens": [TOKEN], "delete": False}, "line": "titan://h/a;size=0;token=" + TOKEN, "content": "", "fault": None, "cls": "existing+tok+fixed"}
-    yield {"tree": FIXED_TREE + [["f", "uploads/.a.$PID.upload", hexs(b"PRECIOUS")]], "cfg": OPEN, "line": "titan://h/a;size=7", "content": c, "fault": None,
-           "cls": "tempcollision+fixed", "nomodel": True}
+    # entries that carry a name the handler might pick for its temporary file (the predictable .NAME.PID.upload of
+    # older revisions, and the name token_hex is made to return here): they must never be opened, replaced or removed
+    col = [[["f", "uploads/.a.$PID.upload", hexs(b"PRECIOUS")]], [["f", "uploads/" + TMPNAME, hexs(b"PRECIOUS")]], [["d", "uploads/" + TMPNAME]],
+           [["l", "uploads/" + TMPNAME, "/out/secret"]], [["l", "uploads/" + TMPNAME, "/out/via-temp-link"]],
+           [["f", "uploads/sub/" + TMPNAME, hexs(b"PRECIOUS")]], [["l", "uploads/.a.$PID.upload", "/out/secret"]]]
+    for extra in col:
+        for line in ("titan://h/a;size=7", "titan://h/sub/n;size=7", "titan://h/" + TMPNAME + ";size=7"):
+            yield {"tree": FIXED_TREE + extra, "cfg": OPEN, "line": line, "content": c, "fault": None, "cls": "tempcollision+fixed"}
+    yield {"tree": FIXED_TREE + col[1], "cfg": OPEN, "line": "titan://h/nd/x/f;size=7", "content": c, "fault": ["write", 2], "cls": "tempcollision+fixed"}
 
 
 class Direct(UploadFamily):
@@ -499,8 +518,6 @@ class Direct(UploadFamily):
             for _ in range(6):
                 cfg, line, body, eff, cls = gen_request(rng, ents, False)
                 case = {"tree": ents, "cfg": cfg, "line": line, "content": hexs(body), "fault": gen_fault(rng, eff), "cls": cls}
-                if ".upload" in line:
-                    case["nomodel"] = True
                 yield case
                 count += 1
 
@@ -535,8 +552,6 @@ class Proto(UploadFamily):
                 total = len(line.encode("utf-8")) + 2 + len(buf)
                 cuts = sorted(rng.sample(range(1, max(total, 2)), k=min(rng.choice([0, 0, 1, 2, 4]), max(total - 1, 0))))
                 case = {"tree": ents, "cfg": cfg, "line": line, "content": hexs(buf), "fault": gen_fault(rng, eff), "cls": cls + "+" + cls2, "cuts": cuts}
-                if ".upload" in line:
-                    case["nomodel"] = True
                 yield case
                 count += 1
 
